@@ -31,13 +31,13 @@ type task struct {
 	ID   int    `json:"id"`
 	Kind string `json:"kind"` // "gb" direct | "gb2" kernel-direct partials | "join" | "prog"
 	// group-by
-	Prog    string     `json:"prog,omitempty"`   // program (for gb2: the partials-out program)
-	Prog2   string     `json:"prog2,omitempty"`  // gb2: the partials-in program
-	SortKey string     `json:"sortkey,omitempty"` // "" | "asc" | "desc": declared order of the input on k
-	Batches [][]string `json:"batches,omitempty"`
+	Prog    string       `json:"prog,omitempty"`    // program (for gb2: the partials-out program)
+	Prog2   string       `json:"prog2,omitempty"`   // gb2: the partials-in program
+	SortKey string       `json:"sortkey,omitempty"` // "" | "asc" | "desc": declared order of the input on k
+	Batches [][]string   `json:"batches,omitempty"`
 	Legs    [][][]string `json:"legs,omitempty"` // gb2: input batches of leg 0 and leg 1
-	B2      int        `json:"b2,omitempty"`      // gb2 sorted: batch size of the merged stream
-	WithSec bool       `json:"withsec,omitempty"`
+	B2      int          `json:"b2,omitempty"`   // gb2 sorted: batch size of the merged stream
+	WithSec bool         `json:"withsec,omitempty"`
 	// join: the two sides are pools of a private in-memory lake; a pool whose
 	// key is the join key k is "declared sorted" (pool order), a pool keyed on the
 	// row number u delivers the rows as written with no declared order on k.
